@@ -7,6 +7,7 @@ import (
 	"go/ast"
 	"go/constant"
 	"go/parser"
+	"go/printer"
 	"go/token"
 	"os"
 	"path/filepath"
@@ -823,6 +824,27 @@ func main() {
 	// the consumer that turns a configuration key into a program to run
 	emit("customAdapterKeyPattern", func() string {
 		return "def customAdapterKeyPattern : Bytes := " + bytesLit(tq.stringArgOfCall("configureCustomAdapters", "MustCompile"))
+	})
+	// ---- git/attribs.go (C19): which attribute files may DEFINE macros. Git honours `[attr]` lines in
+	// $GIT_DIR/info/attributes and the top-level .gitattributes (and the global/system files), never in
+	// a .gitattributes further down; `git lfs track` decides "already supported" from the same reading
+	emit("attrFileMacroConditions", func() string {
+		gitp := safeLoad(filepath.Join(repo, "git"))
+		var conds []string
+		ast.Inspect(gitp.funcDeclRecv("findAttributeFiles", "").Body, func(n ast.Node) bool {
+			if kv, ok := n.(*ast.KeyValueExpr); ok {
+				if id, ok := kv.Key.(*ast.Ident); ok && id.Name == "readMacros" {
+					var sb strings.Builder
+					printer.Fprint(&sb, token.NewFileSet(), kv.Value)
+					conds = append(conds, sb.String())
+				}
+			}
+			return true
+		})
+		if len(conds) == 0 {
+			die("no readMacros: in findAttributeFiles")
+		}
+		return "def attrFileMacroConditions : List Bytes := " + bytesList(conds)
 	})
 	// ---- commands/command_track.go (C19)
 	emit("trackEscapeStrings", func() string { return "def trackEscapeStrings : List Bytes := " + bytesList(cmds.strs("trackEscapeStrings")) })
